@@ -19,6 +19,8 @@ import MdModel.DumpText
 import MdModel.DumpMisc
 import MdModel.DumpMiscInfo
 import MdModel.DumpMaps
+import MdModel.DumpUnified
+import MdModel.DumpIds
 namespace MdModel.Dump
 open MdModel
 open MdModel.Gen.LayoutsX
@@ -124,7 +126,10 @@ def readFull (ms : MemSizes) (b : Bytes) : M (Except Err Full) :=
 
     * `MinidumpMiscInfo` with its accessors and printer (MdModel.DumpMiscInfo),
     * `MinidumpLinuxMaps` (MdModel.DumpMaps): the reader — which PANICS on hostile lines, the open
-      finding C01-procfs-mmappath —, its lookup table, `memory_info_at_address` around every entry.
+      finding C01-procfs-mmappath —, its lookup table, `memory_info_at_address` around every entry,
+    * `UnifiedMemoryInfoList` over the memory-info list and the maps (MdModel.DumpUnified),
+    * `os_parts`, the `Module` identifier accessors and `print` of every module, the unloaded
+      modules' code identifiers, the soft-errors stream (MdModel.DumpIds).
 
   `readWhole` = `readFull` then `readMore` is what the driver runs. -/
 
@@ -156,6 +161,16 @@ structure More where
   misc : Except Err MiscPrinted
   /-- `.error site`: the panic of the operation, caught (render mode only) -/
   maps : Except String (Except Err MapsOut)
+  /-- `UnifiedMemoryInfoList::new(..)` and its accessors; `.error site`: building it needs
+      `get_stream::<MinidumpLinuxMaps>()`, whose panic propagates -/
+  unified : Except String (Option UnifiedOut)
+  /-- `os_parts()` (`none`: no system info) -/
+  osParts : Option (List Nat × Option (List Nat))
+  /-- per module of the module list: the four identifier accessors and what `print` adds -/
+  modules : Option (List ModOut)
+  /-- `code_identifier()` of every unloaded module -/
+  unloaded : Option (List String)
+  softErrors : Except Err Nat
 
 /-- one operation, wrapped in `catch_unwind` in render mode -/
 def guarded {α : Type} (caught : Bool) (x : M α) : M (Except String α) :=
@@ -167,7 +182,31 @@ def readMore (caught : Bool) (b : Bytes) (f : Full) : M More :=
   let e := d.endian
   getStream d b ST_MiscInfoStream (fun s => readMiscInfoX s e) >>= fun misc =>
   guarded caught (getStream d b ST_LinuxMaps readMapsOut) >>= fun maps =>
-  pure { misc := misc, maps := maps }
+  let infoOpt := match f.base.memInfo with
+    | .ok is => some is
+    | .error _ => none
+  (match maps with
+   | .error site => pure (.error site)
+   | .ok r =>
+     let mapsOpt := match r with
+       | .ok mo => some mo.maps
+       | .error _ => none
+     unifiedOut infoOpt mapsOpt >>= fun u => pure (.ok u)) >>= fun unified =>
+  let osp := match f.extra.sys with
+    | .ok si => some (osPartsOf si)
+    | .error _ => none
+  let os := match f.extra.sys with
+    | .ok si => Encode.osOfPlatform si.platform
+    | .error _ => Encode.Os.unknown
+  (match f.base.modules with
+   | .ok ms => modulesOut os e ms >>= fun r => pure (some r)
+   | .error _ => pure none) >>= fun modules =>
+  let unloaded := match f.base.unloaded with
+    | .ok us => some (us.map unloadedIds)
+    | .error _ => none
+  getStream d b ST_MozSoftErrors readSoftErrors >>= fun soft =>
+  pure { misc := misc, maps := maps, unified := unified, osParts := osp, modules := modules, unloaded := unloaded,
+         softErrors := soft }
 
 structure Whole where
   full : Full
